@@ -74,7 +74,8 @@ CLAIMED = {
         "every missing point and leaves the others alone (zeroFilled_exact); frame / point selection, stepping and flip map related bodies to related bodies on every backend, and zero-fill, the NumPy matrix product, bounding boxes and "
         "linear interpolation map them to the SAME body (…_ni); focus to related bodies and the same header dimensions (focus_ni); the two-point and the distribution normaliser compute the same statistics and related results "
         "(Props/C09Norm: normalize_ni, normalizeDistribution_ni); hence for EVERY program over these eleven operations the two runs fail together or end with the same visible "
-        "result (run_ni, runN_ni, program_noninterference). Partial: the 3-D normaliser, the spline interpolants, the masked-tensor representations, augmentation and serialisation are not in the Lean model — they are decided on the implementation by the "
+        "result (run_ni, runN_ni, program_noninterference); the feature representations — distance, X/Y angle, inner angle, point-line distance, the points block and the whole assembled representation — return the same values for any "
+        "two fillings of the missing points (Props/C09Repr: rep2_ni, rep3_ni, pointsRepRows_ni, forward_ni). Partial: the 3-D normaliser, the spline interpolants, augmentation and serialisation are not in the Lean model — they are decided on the implementation by the "
         "two-run check (two fillings of the missing slots incl. NaN / ±inf / ±3e38, same operation sequence, visible results compared exactly after every step, NumPy / torch / tensorflow). Known finding K4 (3-D normaliser).",
    technique="Lean 4 proof (relational two-run invariant over nested arrays, induction over programs) + differential two-run execution on three backends and model correspondence",
    design="§5 C09"),
@@ -146,9 +147,10 @@ CLAIMED = {
         "(angle_formula), acos of the normalised dot product at p2 (innerAngle_formula), and Heron's height = √(|u|²|w|² − (u·w)²) / |w|, the distance from p1 to the line p2p3 (pointLine_formula). Assembled "
         "representation: the limb index lists are the header's limbs shifted by component offsets, in header order, and stay inside the header (limbPoints_spec, limbPoints_in_range); the joint triples are exactly the "
         "chains (mem_trianglePoints); the advertised size is the number of rows (output_size_is_row_count); row point·dims + dim of a points block is that coordinate, zero-filled (pointsRep_row); group_embeds is the "
-        "(embed, batch, len) → (batch, len, embed) transposition (groupEmbeds_entry). Partial: IEEE overflow / rounding (±inf, acos of 1 + ε) and atan / acos themselves are outside the theorems — decided on the "
+        "(embed, batch, len) → (batch, len, embed) transposition (groupEmbeds_entry). End to end (poseRepresentation = the whole __call__, for every header with a chain, every module selection, batch and length): the output is (batch, len, advertised size) "
+        "(forward_shape) and its entries are, in order, the zero-filled coordinates of every point per points module, each limb module on the two ends of each limb, each triple module on each chain (forward_point_entry, forward_limb_entry, forward_triple_entry). Partial: IEEE overflow / rounding (±inf, acos of 1 + ε) and atan / acos themselves are outside the theorems — decided on the "
         "implementation: torch, tensorflow and numpy modules against binary64 formulas, each other and the model; exact zeros and finiteness under masks with coincident / vertical / collinear tuples; assembled "
-        "layouts for random headers block by block.",
+        "layouts for random headers block by block, and the whole output tensor entry by entry against the model.",
    technique="Lean 4 proof (element-level masked semantics for any scalar; Mathlib real analysis for the formulas incl. Heron; list combinatorics for the layout) + differential correspondence on three backends",
    design="§5 C17"),
  "C18": dict(
@@ -162,9 +164,9 @@ CLAIMED = {
  "C19": dict(
    text="Theorems (Props/C19.lean): every cell (frame f, person p, keypoint k) of the loaded pose holds the x, y, confidence of opCell and is missing exactly when that confidence is 0 (openpose_cell); a present keypoint k of component c is "
         "(numbers[3k], numbers[3k+1], numbers[3k+2]) found at the component's own header offset = sum of the earlier components' point counts (openpose_present, via locate_offset / triplesOf_get), whatever the earlier lists contain; a list that is empty or stops early "
-        "leaves the rest of that component zero, hence missing, and shifts nothing (openpose_short_component); absent frames / people are all zeros hence missing (openpose_absent); frame count = requested or max id + 1, every present id is below it, fps recorded (loaded_meta); get_frame_id modelled as a matcher with re.findall semantics, proved to return the digit group for names with a digit-free prefix "
-        "(frame_id_conforming; general prefixes are compared with Python's re by the check). The real load_openpose / load_openpose_directory are run on dictionaries with a distinct value per cell, shuffled and foreign keys, empty component lists. Partial: the loops are modelled in closed form.",
-   technique="Lean 4 proof (list indexing of the running keypoint offset; induction over the scanned prefix for the file-name matcher) + cell-by-cell differential run",
+        "leaves the rest of that component zero, hence missing, and shifts nothing (openpose_short_component); absent frames / people are all zeros hence missing (openpose_absent); frame count = requested or max id + 1, every present id is below it, fps recorded (loaded_meta); get_frame_id modelled as a matcher with re.findall semantics (leftmost, non-overlapping, greedy; last match), proved to return the LAST digit group before '_keypoints.json' for an arbitrary prefix whose last character is not a digit "
+        "and at whose end no complete '_keypoints?json' literal ends (frame_id_last_group; frame_id_documented: no condition at all for the documented scheme [ARBITRARY]_[ID]_keypoints.json); the excluded name shape is exhibited (example) and compared with Python's re like every other name. The real load_openpose / load_openpose_directory are run on dictionaries with a distinct value per cell, shuffled and foreign keys, empty component lists. Partial: the loops are modelled in closed form.",
+   technique="Lean 4 proof (list indexing of the component offsets; strong induction over the remaining prefix for the file-name matcher) + cell-by-cell differential run",
    design="§5 C19"),
  "C20": dict(
    text="Theorems (Props/C20.lean), parametric in the element type (values are moved, never computed with): for every batch of examples with a common trailing shape, pad_tensors returns values and validity of shape "
